@@ -18,7 +18,7 @@ func init() {
 			"the value rule is exactly: unparseable reading => 3; -24 < reading < 24 => 2 (both bounds strict, constants 24 and -24); otherwise uint64(multiplier * reading / divider) with the conversion applied last to a float expression " +
 			"(scale before cast) and no arithmetic after it; the record's timeslot is UnixToTimeslot of the same row's first column and rows whose timestamp does not parse or predates genesis are skipped without producing a record; " +
 			"only parse failures and short rows skip, nothing returns an error or panics after the file was read; calibration: the multiplier is the ParseFloat of the text after exactly one Scan, the divider after exactly two. " +
-			"NOT decided: the numeric result of float64->uint64 conversion for negative, NaN, infinite or overflowing values (implementation-defined by the Go specification; two's complement on amd64/arm64 as compiled), truncation semantics of the conversion itself, and encoding/csv's own parsing rules.",
+			"readings and calibration settings are parsed with bitSize 64 (no rounding to float32). NOT decided: the numeric result of float64->uint64 conversion for negative, NaN, infinite or overflowing values (implementation-defined by the Go specification; two's complement on amd64/arm64 as compiled), truncation semantics of the conversion itself, and encoding/csv's own parsing rules.",
 		Assumptions: append([]string{"encoding/csv, strconv.ParseFloat/ParseInt and bufio.Scanner behave as documented", "float64 -> uint64 conversion of in-range values truncates toward zero (Go specification)"}, baseAssumptions...),
 		Run:         runC16,
 	})
